@@ -13,9 +13,16 @@ func rateScenario(c *Ctx, in map[string]string) {
 	allowFlood := in["allowflood"] == "1"
 	kinds := strings.Split(in["kinds"], ",")
 	s := &Session{Cfg: SessCfg{Nick: "me", User: "me", AllowFlood: allowFlood}}
-	s.Steps = append(s.Steps, Step{Op: "recv", Arg: ":srv 001 me :Welcome"}, Step{Op: "barrier"}, Step{Op: "lastarrival"})
+	s.Steps = append(s.Steps, Step{Op: "recv", Arg: ":srv 001 me :Welcome"}, Step{Op: "barrier"})
+	if strings.Contains(in["kinds"], "longmsg") {
+		// a short line limit, so that the pieces of a split message are cheap (≈ 2 s each instead of ≈ 5 s)
+		s.Steps = append(s.Steps, Step{Op: "recv", Arg: ":srv 005 me LINELEN=220 :are supported by this server"}, Step{Op: "barrier"})
+	}
+	s.Steps = append(s.Steps, Step{Op: "lastarrival"})
 	for i, k := range kinds {
 		switch k {
+		case "longmsg": // splits into several pieces: every piece goes through the limiter
+			s.Steps = append(s.Steps, Step{Op: "timedcall", Arg: "Message", Args: []string{"#chan", strings.TrimSpace(strings.Repeat(fmt.Sprintf("long message %d word ", i), 12))}})
 		case "msg":
 			s.Steps = append(s.Steps, Step{Op: "timedcall", Arg: "Message", Args: []string{"#chan", fmt.Sprintf("message number %d %s", i, strings.Repeat("x", i%7*5))}})
 		case "who":
@@ -43,7 +50,9 @@ func rateScenario(c *Ctx, in map[string]string) {
 	held := 0
 	for i, t := range res.Timings[1:] {
 		line := res.TimedLines[i+1]
-		order = append(order, strings.SplitN(line, " ", 2)[0])
+		if t[1] != -3 { // (continuation pieces of a split message are not separate calls)
+			order = append(order, strings.SplitN(line, " ", 2)[0])
+		}
 		call, arr, n := t[0], t[2], int(t[3])
 		if arr < 0 {
 			c.R.Mismatch("rate.lost", hin, fmt.Sprintf("event %d never arrived", i), "")
@@ -82,7 +91,7 @@ func rateScenario(c *Ctx, in map[string]string) {
 	want := []string{}
 	for _, k := range kinds {
 		switch k {
-		case "msg":
+		case "msg", "longmsg":
 			want = append(want, "PRIVMSG")
 		case "who":
 			want = append(want, "WHO")
@@ -107,6 +116,7 @@ func runC16Timing(c *Ctx) {
 	r := c.R
 	scen := []map[string]string{
 		{"kinds": "msg,who,join,msg,who,notice,who,who,msg,ping,who,pong,join,who"},
+		{"kinds": "msg,who,longmsg,ping,longmsg"},
 		{"allowflood": "1", "kinds": "msg,who,join,msg,who,notice,who,who,msg,ping,who,who,msg,who,msg,msg"},
 	}
 	if c.Tier == "thorough" {
